@@ -22,7 +22,11 @@ def run_batch(scripts, timeout=900):
         open(sp, "w").write("".join(scripts))
         rc, out = C.sh([HYBRIDSIM, sp], timeout=timeout)
         if rc != 0:
-            raise C.Broken("hybridsim failed", out[-3000:])
+            # the process died (a panic that could not be contained, e.g. inside a poisoned lock or a destructor):
+            # run the histories one by one; the one that kills the process is reported as such
+            if len(scripts) > 1:
+                return [run_batch([x], timeout)[0] for x in scripts]
+            out = out + "\nprocess-exit | r=PANIC nw=0 ew= wl=0\n"
     res, cur = [], None
     for line in out.split("\n"):
         if not line.strip():
@@ -309,6 +313,7 @@ def oracle_c09(cfgl, lines):
     cfg = dict(t.split("=", 1) for t in cfgl.split()[1:])
     reins = set(map(int, cfg["reinsert"].split(","))) if cfg.get("reinsert", "none") != "none" else set()
     truth, ever = {}, {}
+    newest = 0
     for n, l in enumerate(lines):
         name, kv, r, nw, ew, wl = parse(l)
         if r == "HANG":
@@ -317,6 +322,7 @@ def oracle_c09(cfgl, lines):
             return (n, f"{name}: panic")
         if name in ("ins", "sins"):
             truth[int(kv["k"])] = int(kv["ver"])
+            newest = max(newest, int(kv["k"]))
             ever.setdefault(int(kv["k"]), set()).add((int(kv["ver"]), max(16, int(kv.get("size", 64)))))
         elif name == "rm":
             truth[int(kv["k"])] = None
@@ -329,6 +335,9 @@ def oracle_c09(cfgl, lines):
                 key, ver, ln, corrupt = res[0], res[1], res[2], res[3]
             else:
                 if r in ("-", "throttled") or r.startswith("err"):
+                    if "recent" in cfg and k >= 1000 and truth.get(k) is not None and newest - k <= int(cfg["recent"]):
+                        return (n, f"key {k}, written {newest - k} inserts ago, is already gone: blocks are not reclaimed "
+                                   "oldest-filled first (a recently filled block was reclaimed)")
                     if k in reins and truth.get(k) is not None and cfg.get("probe_reinsert") == "1":
                         return (n, f"key {k} is admitted by the reinsertion filter but was lost when its block was reclaimed")
                     continue
